@@ -128,6 +128,10 @@ class C04(Check):
             js.append(dict(kind='add', n=n, m=n, same=True))
         for n, m in ((1, 1), (2, 3), (3, 2)):
             js.append(dict(kind='add', n=n, m=m, same='perm'))
+        for pk in ('bool', 'npbool', 'int', 'npint', 'float'):      # value-kind probes
+            for n in (3, 4):
+                js.append(dict(kind='modpat', n=n, L=2, pk=pk))
+                js.append(dict(kind='modpat', n=n, L=3, pk=pk))
         js.sort(key=lambda j: -(j['n'] ** 2 if j['kind'] in ('sort', 'span') and not j.get('fixed') else j['n']))
         return js
 
@@ -256,6 +260,10 @@ class C04(Check):
         if kind == 'modpat':
             L = job['L']
             pat = [self._arg(eng, inp, 'b%d' % k, 0, 1) for k in range(L)]
+            if job.get('pk'):       # the kind of truth value in the pattern: Python bool, numpy bool, 0/1 integers, numpy integers
+                import numpy as np
+                conv = {'bool': bool, 'npbool': np.bool_, 'int': int, 'npint': np.int64, 'float': float}[job['pk']]
+                pat = [conv(int(b)) for b in pat]
             res = tr % pat
             pat = [int(b) for b in pat]
             return frame_ok(res, tr, before, [i for i in range(n) if pat[i % L]], '%% %r' % pat), dict(size=res.size() if res is not None else -1)
@@ -266,12 +274,21 @@ class C04(Check):
                 eng.assume(z3.Distinct([v.z for v in idx]))
             elif not sym and len(set(idx)) != len(idx):
                 return None, {}
-            tr.removeObsList(list(idx))
+            arg = list(idx)
+            keep = list(arg)
+            tr.removeObsList(arg)
+            if sorted(int(v) for v in arg) != sorted(int(v) for v in keep):      # (the unchanged code sorts the list in place: allowed; it must still hold the same indices)
+                return 'removeObsList emptied or altered the index list it was given', dict(size=tr.size())
             idx = sorted(int(v) for v in idx)
             got = tags(tr)
             want = [i for i in range(n) if i not in idx]
             if got != want:
                 return 'removeObsList(%r) leaves observations %r, expected %r' % (idx, got, want), dict(size=tr.size())
+            # the same list object is used again on a second track of the same size
+            tr2 = build(n, secs, mss)
+            tr2.removeObsList(arg)
+            if tags(tr2) != want:
+                return 'removeObsList with the index list of an earlier call leaves observations %r, expected %r' % (tags(tr2), want), dict(size=tr.size())
             for c, i in enumerate(want):
                 if tr.getObs(c) is not before[i] or tr.getObsAnalyticalFeature('f', c) != 100.0 + i:
                     return 'removeObsList: a remaining observation lost its own values', dict(size=tr.size())
